@@ -238,11 +238,21 @@ def key_for(bit: int, guards: int, lang: str) -> Optional[str]:
 
 
 def run(ck: Check) -> None:
+    import sys
+    import time
+    t_start = time.time()
+
+    def lap(what: str) -> None:
+        ck.coverage.setdefault("timing_s", {})[what] = round(time.time() - t_start, 1)
+        if os.environ.get("VERIF_C10_TIMING"):
+            print(f"[C10] {what}: {time.time() - t_start:.1f}s", file=sys.stderr)
+
     ck.assumptions.extend(ASSUME)
     ck.coverage["trusted_base"] = ["Coq 8.16.1 kernel + vm_compute", "tools/translate_c10.py", "tools/c10_parse.py",
                                    "tools/run_c10.py + gcc/g++ 12 + CPython 3.12", "no axioms (Print Assumptions: closed)"]
     ck.try_prove("C10.v", model_vo=("theories/EmitCheck.vo",))
 
+    lap("proofs built")
     # ---- jobs: corpus first, then the two generated streams, then inside-known-class ----
     jobs: List[Dict[str, Any]] = []
     for p in sorted(glob.glob(os.path.join(VERIF, "corpus", "C10", "*.json"))):
@@ -306,6 +316,7 @@ def run(ck: Check) -> None:
     conv_jobs = [{"id": -1 - q, "kind": "caseconv", "words": words[q:q + 1000]} for q in range(0, len(words), 1000)]
 
     results = run_workers("run_c10.py", conv_jobs + wjobs, chunk=2, timeout=900)
+    lap("implementation + toolchains run")
     conv_res = results[:len(conv_jobs)]
     results = results[len(conv_jobs):]
 
@@ -352,6 +363,7 @@ def run(ck: Check) -> None:
 
     out = cl.run_shards(ck, "c10", shard_items, HEADER, per_shard=8, timeout=600)
 
+    lap("Coq evaluation of the case files")
     # ---- interpretation ----
     conv_bad = [m[2] for m, code in out if m[1] == "conv" and code != 0]
     for m, code in out:
